@@ -22,7 +22,7 @@ checks = {
          'trusts the evaluator (regexp anchored, math/big); typed Set of enum/bits/identity labels is not asserted (conversion decides membership)', 'DESIGN.md 3/C05'),
  'C06': ('exploration', 'runtime monitor: renderer-recorded denotations vs canonical dump through public accessors; dump equality across repeated loads and across worker processes',
          'Generated module texts cover the statement kinds and 6 quoting styles; the renderer records, for every argument, the exact string it denotes and where it must be read back; each expectation is looked up in the canonical dump. The same text is loaded 5 times in-process and in two different worker processes and the dumps must be identical.',
-         'trusts the renderer inverse (string escaping rules of RFC 7950 6.1.3); constructs the grammar rejects (empty bodies, concatenation where the grammar takes a single token) are outside the generator domain', 'DESIGN.md 3/C06'),
+         'trusts the renderer inverse (string escaping rules of RFC 7950 6.1.3); constructs the grammar rejects (empty bodies of statements with mandatory sub-statements, concatenation where the grammar takes a single token) are outside the generator domain', 'DESIGN.md 3/C06'),
  'C07': ('exploration', 'runtime monitor: model projection of the unconstrained tree vs token-decoded JSON of the constrained read (leaf path/value sets); store immutability; invalid values must error',
          'content, depth, fields, fc.xfields, with-defaults=trim, fc.range and fc.max-node-count singly, in pairs and triples, in one query or applied stepwise to an already constrained selection, on root / container / list / entry targets; the set of (path,value) leaves of the answer must equal the model projection; reads must not modify the store; invalid parameter values must be errors.',
          'trusts the projection model (c07params.project); empty containers compared at info level; window convention [a,b)', 'DESIGN.md 3/C07'),
@@ -33,22 +33,22 @@ checks = {
          'Every byte prefix of every repository YANG file <= 2 KiB (token-boundary prefixes otherwise), sampled single/double token mutations, pathological nesting / concatenation / argument sizes, typedef / grouping / identity / import cycles and faulty openers are loaded in worker processes under panic recovery, fatal-error attribution and a per-input cpu/rss watchdog; every module that loads is walked through all public accessors.',
          'exhaustive only in truncation points per corpus text; mutations sampled', 'DESIGN.md 3/C14'),
  'C16': ('exploration', 'runtime monitor: truth oracle (math/big, code-point order, enum value) for leaf OP literal vs visibility in reads, edits, where rows and filtered notification events; differential run without the condition',
-         'All 6 operators x 12 operand types x catalog values straddling the literal x {set, unset, unset with default} x placement {when on container, leaf, leaf-list, uses (incl. nested uses), augment; where on top-level and nested lists; filter on a scripted notification stream; when during an edit}.',
-         'literals inside the operand type; context node as the library documents (container: itself, leaf: parent)', 'DESIGN.md 3/C16'),
+         'All 6 operators x 12 operand types x catalog values straddling the literal x {set, unset, unset with default} x placement {when on container, leaf, leaf-list, list (per entry), uses (incl. nested uses), augment; operands behind paths of 2-3 segments and '..' steps; own + inherited conditions stacked; where on top-level and nested lists; filter on a scripted notification stream; when during an edit}.',
+         'literals inside the operand type; context node as the library documents (container: itself, leaf: parent); no absolute paths (not in the library grammar)', 'DESIGN.md 3/C16'),
  'C19': ('exploration', 'runtime monitor: encoding/xml strict parse of writer output vs model tree; ReadXMLDoc round trip into a capture store; sibling interleavings of reference documents',
-         'Both XML writers (and pretty printing) on generated trees with an XML-hostile text catalog, whitespace family, all leaf types, second-module namespaces; output must be a single-root well-formed document denoting the tree; importing it must reproduce the tree; 5 random sibling interleavings of a reference encoding must import to the same tree.',
+         'Both XML writers (and pretty printing) on generated trees with an XML-hostile text catalog, whitespace family, all leaf types, second-module namespaces, submodule nodes, a namespace URI with reserved characters, documents starting below the root; output must be a single-root well-formed document denoting the tree; importing it must reproduce the tree; 5 random sibling interleavings of a reference encoding must import to the same tree.',
          'trusts encoding/xml; characters outside XML 1.0 excluded; namespace of grouping-derived nodes accepted as defining or using module', 'DESIGN.md 3/C19'),
  'C08': ('exploration', 'runtime monitor: model lookup oracle over every addressable node x path spelling x store; store immutability check',
-         'For every container, list, entry and leaf of generated trees, Find with plain / module-qualified / trailing-slash / fully percent-encoded spellings, ../ paths from the node itself and paths with query parameters must select exactly the model node (schema identity, structured path chain, key values, exported content), the rendered path must lead back, absent keys select nothing and unknown names are not-found errors.',
-         'trusts the model tree and net/url escaping; stores: reference store and JSON reader', 'DESIGN.md 3/C08'),
+         'For every container, list, entry and leaf of generated trees, Find with plain / module-qualified / trailing-slash / fully percent-encoded spellings, ../ paths from the node itself and paths with query parameters must select exactly the model node (schema identity, structured path chain, key values, exported content), the rendered path must lead back, absent keys select nothing, unknown names and names qualified with an unknown module are not-found errors.',
+         'trusts the model tree and net/url escaping; stores: reference store, JSON reader, nodeutil.Reflect / nodeutil.Node over Go maps, slices and structs; schemas with an augmenting module, a submodule, a prefix that differs from the module name', 'DESIGN.md 3/C08'),
  'C09': ('exploration', 'runtime monitor: invariant scan of the target store after every step of an upsert history + reference model (SwitchCase)',
          'After every upsert of histories of 2..12 steps that alternate cases (nested choices, shorthand cases, cases with leaves/leaf-lists/containers/lists, choices in lists) the store is scanned for choices holding data of two cases, compared with the model and exported.',
-         'trusts dp.Apply/clearOtherCases (model); targets: reference store, nodeutil.Reflect and nodeutil.Node over Go maps (read back with package reflect)', 'DESIGN.md 3/C09'),
+         'trusts dp.Apply/clearOtherCases (model); targets: reference store (also one that hands out nodes for containers holding nothing yet), nodeutil.Reflect and nodeutil.Node over Go maps (read back with package reflect)', 'DESIGN.md 3/C09'),
  'C12': ('fault_enumeration', 'runtime monitor: recorded callback trace + offline trace checker; every fault position k of every scenario enumerated',
          'Each scenario (operation x entry point x trees) is run once fault-free to measure its callback trace, then once per callback position with that callback failing on the source or target side; the offline checker verifies begin/end pairing per node identity, the set of notified nodes, wrapping of the injected error and absence of writes after the failure. Exhaustive in k per scenario; scenarios are sampled.',
          'trusts the recording wrapper (pass-through) and the reference store', 'DESIGN.md 3/C12'),
  'C18': ('exploration', 'runtime monitor: reference model (delete/replace) vs store read directly after every step + key-uniqueness scan + Find probes',
-         'Histories of 3..15 delete / replace / insert / upsert operations (first, middle, last, only entry; whole list; container; delete-then-reinsert) are replayed against model and library; after each step the store equals the model, no list holds a duplicate key, the removed node is no longer found and remaining nodes are.',
+         'Histories of 3..15 delete / replace / insert / upsert operations (first, middle, last, only entry; whole list; container; delete-then-reinsert; several deletes through one held list selection; payloads stating another key than the addressed entry's) are replayed against model and library; after each step the store equals the model, no list holds a duplicate key, the removed node is no longer found and remaining nodes are.',
          'trusts dp.DeleteAt/Apply (model); stores: reference store, nodeutil.Reflect / nodeutil.Node over Go maps, slices and reflect.StructOf structs (zero value = unset in struct shape)', 'DESIGN.md 3/C18'),
  'C03': ('exploration', 'runtime monitor: executable reference model (keyed deep merge) vs target store read directly; error class via errors.Is',
          'Every edit call on a generated (schema, target, source, strategy, entry point, direction, source implementation) tuple and on histories of up to 6 such calls is compared with an executable model written from the statement; the target is a harness store read without any library read path. Held on the executions observed.',
@@ -60,10 +60,10 @@ checks = {
          'Every val.Conv result for ~30k (format, source) pairs per run is compared with the arbitrary-precision denotation of the source: error, or exactly the same number/text/truth value/sequence; in-range natural sources must convert.',
          'trusts math/big and strconv; decimal64 exactness is float64-nearest (documented representation)', 'DESIGN.md 3/C10'),
  'C15': ('exploration', 'runtime monitor: encoding/json token-stream oracle on writer output + failing io.Writer fault injection at byte positions',
-         'Writer output for 8 configurations x start selections (root, container, list, entry, leaf) over trees with a JSON-hostile string catalog and nesting up to 70 is parsed by the standard library and compared with the model (names, RFC 7951 qualification, typing, string decoding, pretty==compact tokens); a failing stream is injected at boundary byte positions and must surface as an error.',
+         'Writer output for 8 configurations x start selections (root, container, list, entry, leaf) over trees (augmenting module, submodule nodes) with a JSON-hostile string catalog and nesting up to 70 is parsed by the standard library and compared with the model (names, RFC 7951 qualification, typing, string decoding, pretty==compact tokens); a failing stream is injected at boundary byte positions and must surface as an error.',
          'trusts encoding/json; int64/uint64/decimal64 accepted as number or string of the same digits', 'DESIGN.md 3/C15'),
  'C17': ('exploration', 'runtime monitor: law checking of Compare/Equal against math/big denotations + keyed-lookup differential vs model list',
-         'All 65536 pairs of both 8-bit formats and all pairs/triples over boundary sets of every other comparable format are checked against an arbitrary-precision denotation on every run; lookups on slice/map stores are compared with a model list. Held-on-what-was-observed, exhaustive only for the 8-bit tables.',
+         'All 65536 pairs of both 8-bit formats and all pairs/triples over boundary sets of every other comparable format are checked against an arbitrary-precision denotation on every run; lookups on slice/map stores (all integer widths, string, boolean, composite tuples, binary, decimal64, enumeration and union keys) are compared with a model list. Held-on-what-was-observed, exhaustive only for the 8-bit tables.',
          'trusts math/big, strings.Compare and the harness model list; wider formats are sampled at boundaries + seeded random values', 'DESIGN.md 3/C17'),
 }
 not_impl_reason = 'check not implemented yet in this revision of /verif (see DESIGN.md for the planned monitor)'
